@@ -57,7 +57,11 @@ class UnitW(Unit):
         out.spec(HEAD)
         self._trusted = []
         from .r import prelude
-        self._trusted += prelude(out, ['ax-display-ref', 'stdspec-as-deref', 'stdspec-bytelen', 'stdspec-as-bytes', 'stdspec-contains'])
+        # std contracts the unchanged tree does not need are added when a writer file starts calling the function (listed in that run's trusted base)
+        import glob, os, re
+        wsrc = ''.join(open(f, encoding='utf-8').read() for f in glob.glob(os.path.join(repo, 'zeep-lib/src/model/**/*.rs'), recursive=True) if not f.endswith('helpers_content.rs'))
+        on_demand = ['stdspec-string-build'] if re.search(r'String::with_capacity\s*\(', wsrc) else []
+        self._trusted += prelude(out, ['ax-display-ref', 'stdspec-as-deref', 'stdspec-bytelen', 'stdspec-as-bytes', 'stdspec-contains'] + on_demand)
         self._trusted += sections(out, 'dep_io.rs', ['io-write-ghost', 'fmt-ghost'])
         self._trusted += sections(out, 'dep_misc.rs', ['inflector', 'url', 'roxmltree-error'])
         out.spec(MOD_HEAD)
